@@ -9,6 +9,7 @@ import JxlModel.Driver.C18
 import JxlModel.Driver.C16
 import JxlModel.Driver.C06
 import JxlModel.Driver.C04
+import JxlModel.Driver.C15
 
 def main (args : List String) : IO UInt32 := do
   match args with
@@ -27,4 +28,5 @@ def main (args : List String) : IO UInt32 := do
   | ["c06"] => Jxl.Driver.C06.main; return 0
   | ["c04"] => Jxl.Driver.C04.main; return 0
   | ["c04enc"] => Jxl.Driver.C04.mainEnc; return 0
+  | ["c15"] => Jxl.Driver.C15.main; return 0
   | _ => IO.eprintln "usage: jxlmodel <component>"; return 2
